@@ -2713,7 +2713,8 @@ def groupby_reduce(
     if axis is None:
         axis_ = tuple(array.ndim + np.arange(-by_.ndim, 0))
     else:
-        axis_ = normalize_axis_tuple(axis, array.ndim)
+        # the order in which the reduced axes are named is irrelevant; the graph code assumes ascending order
+        axis_ = tuple(sorted(normalize_axis_tuple(axis, array.ndim)))
     nax = len(axis_)
 
     has_dask = is_duck_dask_array(array) or is_duck_dask_array(by_)
